@@ -3,6 +3,15 @@
 RT_REAL = ["eqlog-runtime (path dependency on /repo/eqlog-runtime, built from the current working tree, "
            "debug assertions on): wbtree::map, wbtree::set, prefix_tree, toposort"]
 
+MS_REAL = ["the compiler of the current tree (eqlog::process, module mode, in-process) turns every corpus program into Rust",
+           "real rustc compiles the generated modules against the real eqlog-runtime (path dependency on /repo)",
+           "the generated model is driven through its generated public API; private state is read by a driver file textually included next to the generated module"]
+
+COMMON_MS_RULE = ("corpus = generated programs (typed random generator, generator seed 1; quick 40 / thorough 120 programs; shapes: joins of 1-4 atoms, "
+                  "repeated variables inside an atom, repeated atoms of one relation, premise equalities, nested terms, wildcards, sort atoms, "
+                  "interleaved if/then, equality conclusions, `!` with and without `:=`, branch, match/enum), recompiled by the current compiler on "
+                  "every run; ")
+
 PROPS = {
     "C08": {
         "module": "rt",
@@ -118,5 +127,85 @@ PROPS = {
             "theory file name is held fixed (it is a declared input of the function)",
             "std's per-process SipHash keys cannot be seeded from outside; a difference that shows only across processes is reported with a statistical replay note",
         ],
+    },
+    "C01": {
+        "module": "model",
+        "level": "exploration",
+        "rule": COMMON_MS_RULE + "per run a seeded history of <= 40 API calls (new_, new_<enum>, insert_, define_, equate_, close, close_until cancelled at a seeded poll, duplicates, arguments drawn from all ids handed out incl. non-roots) ending in close(); after every close that completed the source rules are re-evaluated naively over the public dump (every rule path, every prefix ending in a then-atom, every assignment) plus single-valuedness. Non-trivial = a completed close that ran >= 3 iterations; distinct = distinct final public dumps per program.",
+        "real": MS_REAL,
+        "stub": ["none: compiler, rustc, runtime and generated code are the real ones; the reference (naive chase / rule checker / union-find) is the oracle, not a stub of the system"],
+        "assumptions": ["branch/match are read as control-flow paths (blocks' premises stay in force, their names go out of scope), as eqlog.eql defines them", "closes are run as close_until with a poll/element budget; runs that exhaust it (diverging programs) are not judged"],
+    },
+    "C02": {
+        "module": "model",
+        "level": "exploration",
+        "rule": COMMON_MS_RULE + "per run a seeded history over caller-created elements only (so that the asserted facts are well defined), intermediate closes allowed, final close(); the reference naive chase (saturate surjective conclusions, then perform all enabled `!` at once; budgets 400 elements / 60 rounds) runs over exactly the asserted facts and equalities; the closed model must be isomorphic to it by the map that fixes caller-created elements and is extended along function graphs (injective, surjective, all tables both ways). Non-trivial = final close ran >= 3 iterations; distinct = distinct final dumps per program.",
+        "real": MS_REAL,
+        "stub": ["none: compiler, rustc, runtime and generated code are the real ones; the reference (naive chase / rule checker / union-find) is the oracle, not a stub of the system"],
+        "assumptions": ["only (program, input) pairs whose reference chase terminates within budget are judged; a real close that exhausts its poll budget is inconclusive, not a violation", "`then f(a) = t` with t defined adjoins the row (no `f(a)!` needed), as the compiler reads it"],
+    },
+    "C03": {
+        "module": "model",
+        "level": "exploration",
+        "rule": COMMON_MS_RULE + "per run a fact set (named elements, definitions d = f(args), tuples, equalities) and 2-4 schedules of it: the one-shot history plus seeded topological linearisations with duplicated assertions, re-assertions of earlier facts, close() at random cut points and permuted element creation; all final models must be isomorphic to the one-shot model by the map induced by the names; a second close() must leave the full public dump (ids and iteration order) unchanged. Non-trivial = >= 4 iterations overall; distinct = distinct one-shot dumps per program.",
+        "real": MS_REAL,
+        "stub": ["none: compiler, rustc, runtime and generated code are the real ones; the reference (naive chase / rule checker / union-find) is the oracle, not a stub of the system"],
+        "assumptions": ["runs in which some schedule exhausts the close budget are not judged"],
+    },
+    "C04": {
+        "module": "model",
+        "level": "exploration",
+        "rule": COMMON_MS_RULE + "seeded histories as for C01; the monitor runs after every close/close_until return AND at every poll of close_until's condition: every new copy of a relation (all column orders, diagonal copies un-permuted and filtered by their pattern) denotes one set N, every old copy one set O, N and O disjoint, all components roots, type sets = one id per class, element index lists every row under each component, uprooted lists empty, iterators = N u O without repetition, point queries = membership and invariant under substituting equal ids, enum case queries = constructor rows. Non-trivial = >= 2 monitor evaluations and >= 3 polls; distinct = distinct final dumps per program.",
+        "real": MS_REAL,
+        "stub": ["none: compiler, rustc, runtime and generated code are the real ones; the reference (naive chase / rule checker / union-find) is the oracle, not a stub of the system"],
+        "assumptions": ["field-name grammar <rel>_(new|old)[_eqs_<pattern>]_order_<perm> is parsed from the emitted struct; if it stops parsing the check exits 2", "before a model is closed a function graph may be multi-valued: a point query must then return one of the stored values"],
+    },
+    "C05": {
+        "module": "model",
+        "level": "exploration",
+        "rule": COMMON_MS_RULE + "seeded histories; after EVERY call: are_equal_ over all pairs of ids = reference union-find (seeded from the last closed state plus the equate_ calls since), root_ idempotent and inside the class, id counters; while no equate_ since the last close: an inserted tuple is reported by the point query and exactly once by the iterator, define_ returns an existing value (no new id) or the next dense id, new_ returns the next dense id, new_<enum>(case) is found by <enum>_cases. Non-trivial = >= 1 close or cancelled close in the history; distinct = distinct final dumps per program.",
+        "real": MS_REAL,
+        "stub": ["none: compiler, rustc, runtime and generated code are the real ones; the reference (naive chase / rule checker / union-find) is the oracle, not a stub of the system"],
+        "assumptions": ["for multi-valued function graphs before a close, evaluation must return one of the asserted values (nothing stronger is promised)"],
+    },
+    "C06": {
+        "module": "model",
+        "level": "exploration",
+        "rule": COMMON_MS_RULE + "programs of the corpus without `!` in any then-statement (incl. 'tempting' programs the compiler must reject: a then-atom mentioning a term no earlier statement mentions); every close of a seeded history must finish within 2*(C + sum_r C^arity(r)) + 4 iterations (C = classes before the close), must not increase the number of classes of any sort and must not allocate ids. Non-trivial = a completed close with >= 2 iterations; distinct = distinct final dumps per program.",
+        "real": MS_REAL,
+        "stub": ["none: compiler, rustc, runtime and generated code are the real ones; the reference (naive chase / rule checker / union-find) is the oracle, not a stub of the system"],
+        "assumptions": ["liveness is stated in iterations (polls of close_until), never in wall-clock time"],
+    },
+    "C07": {
+        "module": "model",
+        "level": "fault_enumeration",
+        "rule": COMMON_MS_RULE + "per run a seeded history, then for EVERY poll index k of a direct close() of it (enumerated, up to 12): a fresh model is closed with the monotone state-based condition 'all facts of the public dump at poll k of the direct run hold'; returned true => condition holds; false => condition false and rules hold; the stopped state lies inside the closed model; then optionally further assertions over caller-created elements (applied to both sides) and close(): the result must satisfy all rules and be isomorphic to a direct close of the same assertions. Non-trivial = the direct close ran >= 3 iterations; distinct = distinct (final dump, k) per program.",
+        "real": MS_REAL,
+        "stub": ["none: compiler, rustc, runtime and generated code are the real ones; the reference (naive chase / rule checker / union-find) is the oracle, not a stub of the system"],
+        "assumptions": ["ids are comparable between the dry run and the cancelled run because evaluation is deterministic (C20)", "runs whose direct close exhausts the budget are not judged"],
+    },
+    "C15": {
+        "module": "model",
+        "level": "exploration",
+        "rule": COMMON_MS_RULE + "programs of the corpus with an enum; seeded histories incl. new_<enum>(case); at every poll and after every close: every element of every enum sort has >= 1 case and <enum>_case does not panic; after a completed close the returned constructor application evaluates to an element equal to it. Non-trivial = >= 1 enum element checked; distinct = distinct final dumps per program.",
+        "real": MS_REAL,
+        "stub": ["none: compiler, rustc, runtime and generated code are the real ones; the reference (naive chase / rule checker / union-find) is the oracle, not a stub of the system"],
+        "assumptions": ["the 'compiler accepts no rule that makes a non-constructor enum term defined' half is static (C10 territory) and only exercised as far as the generator emits such programs"],
+    },
+    "C16": {
+        "module": "model",
+        "level": "exploration",
+        "rule": COMMON_MS_RULE + "per run two seeded lists of assertions O (aged to old through the private move_new_to_old) and N (new); four models: labelled (O old, N new), everything new, O only, everything old; the rule functions of one iteration are run per rule group through the included driver and the rows pushed into each delta vector are compared: conservation law pushes(labelled) + pushes(O only) = pushes(everything new) as multisets per rule group and vector (the symmetric single-valuedness rule as a set of unordered pairs), and everything old => nothing pushed. Non-trivial = the labelled model enumerated >= 1 match; distinct = distinct labelled push multisets per program.",
+        "real": MS_REAL,
+        "stub": ["none: compiler, rustc, runtime and generated code are the real ones; the reference (naive chase / rule checker / union-find) is the oracle, not a stub of the system"],
+        "assumptions": ["decided dynamically on the emitted rule functions, not by parsing the emitted Rust", "no equalities among the inserted elements, so rows are stable"],
+    },
+    "C20": {
+        "module": "model",
+        "level": "exploration",
+        "rule": COMMON_MS_RULE + "in-process: every seeded history is run twice on fresh models and the transcripts (every return value, the full public dump with iteration order after every call, enum cases) compared; cross-process: all 16 shard processes run the same histories per program and their transcript hashes are compared (ASLR off on odd shards, environment and allocation padding). Non-trivial = >= 1 close; distinct = distinct final dumps per program.",
+        "real": MS_REAL,
+        "stub": ["none: compiler, rustc, runtime and generated code are the real ones; the reference (naive chase / rule checker / union-find) is the oracle, not a stub of the system"],
+        "assumptions": ["std's per-process hash keys cannot be seeded from outside; a cross-process-only difference is reported with a statistical replay note"],
     },
 }
